@@ -29,3 +29,24 @@ spec fn cursor_same(old: &State, new: &State) -> bool {
     &&& new.heap@[new.off_ref()] == old.heap@[old.off_ref()]
     &&& new.heap@[new.stash_ref()] == old.heap@[old.stash_ref()]
 }
+
+// the number a bit sequence denotes (C05: proved by the Kani offset families to depend on the bit
+// sequence alone); here only which bits are decoded, and with which byte order, is checked
+pub uninterp spec fn uint_of(bits: Seq<bool>, order: Byteorder) -> u128;
+pub uninterp spec fn int_of(bits: Seq<bool>, order: Byteorder) -> i128;
+pub uninterp spec fn f32_of(bits: Seq<bool>, order: Byteorder) -> f32;
+pub uninterp spec fn f64_of(bits: Seq<bool>, order: Byteorder) -> f64;
+pub uninterp spec fn f32_to_f64_spec(x: f32) -> f64;
+#[verifier::external_body] fn f32_to_f64(x: f32) -> (r: f64) ensures r == f32_to_f64_spec(x) { x as f64 }
+
+impl State {
+    // the stash of suspended inputs (close-bitstr pops it, LIFO)
+    spec fn stash_ok(&self) -> bool { strip(self.heap@[self.stash_ref()]) is Vector }
+    spec fn stash(&self) -> Seq<Cell> { strip(self.heap@[self.stash_ref()])->Vector_0@ }
+}
+
+// what a stash entry restores: the input it carries and the offset in its tag
+pub uninterp spec fn offset_lit() -> Cell;
+spec fn entry_offset(e: Cell) -> Cell {
+    match xmap_get(tags_of(e), offset_lit()) { Some(v) => v, None => ZERO }
+}
